@@ -181,9 +181,9 @@ def main(argv=None):
     kf_lines = []
     if known_p:
         from . import standin
+        still = standin.replay_known(known_p, REPO)
         for k in known_p:
-            still = standin.replay_known(k, REPO)
-            if still:
+            if still.get(k["finding_id"], True):
                 kf_lines.append(f"KNOWN-FINDING: property={prop} {k['finding_id']}: {k['what']}")
 
     # decide
@@ -222,7 +222,13 @@ def main(argv=None):
 
     # evidence
     level = cfg["level"]
-    trusted_base = P.trusted_base(prop, trusted_items, rules)
+    includes = []
+    for u, (gen, res, cres) in results.items():
+        if gen is not None:
+            for inc in (gen.includes or []):
+                if inc not in includes:
+                    includes.append(inc)
+    trusted_base = P.trusted_base(prop, trusted_items, rules, includes)
     coverage = dict(
         obligations=obligations, discharged=discharged,
         checker_cmd=f"verus build/<unit>.rs --output-json --time --multiple-errors 20 (units: {', '.join(cfg['units'])}; regenerated from {REPO} on this run) + canary run per unit",
